@@ -179,17 +179,19 @@ Proof. vm_compute. split; reflexivity. Qed.
 """)
 
 SPECS["C05"] = ("""property C05: queries return exactly the matching events, newest first, newest-k under limit.
-   PARTIAL.  Proved here: what the specification of a query (ADb.a_query) means - every result is
-   retrievable, matches and passes the screen; results are sorted newest first; the count is
-   min(limit, qualifying); every qualifying event is in the unlimited answer.  Proved of the CONCRETE
-   planner (Db.find_events, all seven plans) for every state: soundness (results stored, matching,
-   screened, newest first, duplicate-free, within the limit, redacted flag sound), no panic, scraping
-   refusal only when justified; and COMPLETENESS of all seven plans for every reachable state when the
-   limit exceeds the size of every index table (DbQueryComplete.v, on top of the global index invariant,
-   the memcmp order of the keys and at-most-one-per-address): the answer is exactly the qualifying set.
-   Still decided only per run: the newest-k choice when a scan IS cut short by the limit (the moving
-   since optimisation), checked against a_query modulo ties at the cut on every generated history.""",
-  DBIMP + "\nFrom Pocket Require Import DbQuerySound DbIdInv DbIndexInv KeyOrder DbAddr DbQueryComplete.", [
+   Proved of the CONCRETE planner (Db.find_events, all seven plans).  For every state: soundness (results
+   stored, matching, screened, newest first, duplicate-free, within the limit, redacted flag sound), no
+   panic, scraping refusal only when justified.  For every reachable state and EVERY limit
+   (DbQueryNewest.v, on top of the global index invariant, the memcmp order of the keys, at-most-one-
+   per-address): every qualifying event is in the answer, or the answer is full and everything in it is at
+   least as new - i.e. the answer is the limit newest qualifying events, ties at the cut arbitrary,
+   whichever index serves the filter; this covers the per-scan counters, the moving since, the replaceable
+   early stop and the early stop of the scrape plan.  DbQueryComplete.v is the special case of a limit that
+   exceeds every table (answer = exactly the qualifying set).  Also: what the specification a_query means.
+   PARTIAL only in the filters covered: 32-byte authors, u16 kinds, one-byte tag-constraint names (all
+   that the JSON syntax can express); other filters constructible through from_parts, and the agreement
+   of the model with the code, are decided per run against a_query modulo ties at the cut.""",
+  DBIMP + "\nFrom Pocket Require Import DbQuerySound DbIdInv DbIndexInv KeyOrder DbAddr DbQueryComplete DbQueryNewest.", [
   ("C05_query_spec_meaning_partial",
    "forall st f screen,\n    (forall x, In x (a_query st f screen) -> In x (live st) /\\ spec_matches f x = true /\\ screen x = SMatch) /\\\n    desc_sorted (a_query st f screen) /\\\n    len (a_query st f screen) = N.min (f_limit f) (len (a_qualifying st f screen)) /\\\n    (forall x, In x (live st) -> spec_matches f x = true -> screen x = SMatch -> In x (a_qualifying st f screen)) /\\\n    a_query st f screen = ltake (f_limit f) (a_qualifying st f screen)",
    "a_query_meaning", ""),
@@ -199,6 +201,9 @@ SPECS["C05"] = ("""property C05: queries return exactly the matching events, new
   ("C05_answer_exact_when_limit_exceeds_store",
    "forall ops names f screen now allow_scraping allow_limit allow_seconds out red,\n    ops_wfe ops -> let s := c_run ops (db_init names) in\n    filter_ok f -> limit_exceeds_store s f ->\n    find_events s f screen now allow_scraping allow_limit allow_seconds = Ok (out, red) ->\n    forall x, In x out <-> (get_event_by_id s (e_id x) = Ok (Some x) /\\ spec_matches f x = true /\\ screen x = SMatch)",
    "find_events_exact_reachable", "COMPLETENESS of all seven plans: every reachable state of the concrete store, every filter with 32-byte authors, u16 kinds, one-letter tag constraint names, whose limit exceeds the size of every index table (no scan is cut short): the answer is EXACTLY the retrievable events that match and pass the screen - whichever index serves the filter (ids / author+kind incl. the replaceable early stop / author+tag / kind+tag / tag / author / scrape)"),
+  ("C05_newest_k_under_every_limit",
+   "forall ops names f screen now allow_scraping allow_limit allow_seconds out red,\n    ops_wfe ops -> let s := c_run ops (db_init names) in\n    filter_ok f ->\n    find_events s f screen now allow_scraping allow_limit allow_seconds = Ok (out, red) ->\n    forall x, get_event_by_id s (e_id x) = Ok (Some x) -> spec_matches f x = true -> screen x = SMatch ->\n      In x out \\/ (len out = f_limit f /\\ forall y, In y out -> e_created x <= e_created y)",
+   "find_events_newest_reachable", "NEWEST-K for EVERY limit, all seven plans, every reachable state: a retrievable event that matches and passes the screen is either returned, or the answer holds limit events all at least as new (ties at the cut chosen arbitrarily). With C05_concrete_planner_sound (results qualify, newest first, no duplicates, at most limit) the answer is the limit newest qualifying events, whichever index serves the filter"),
   ("C05_query_never_panics",
    "forall s f screen now allow_scraping allow_limit allow_seconds, lettered f ->\n    find_events s f screen now allow_scraping allow_limit allow_seconds <> Panic",
    "find_events_no_panic", "every state, every filter whose tag constraints have non-empty names (the only ones the JSON syntax and the constructors produce)"),
@@ -212,6 +217,29 @@ Example C05_example :
   exists s1, store_event (db_init []) e = (s1, Ok 8) /\\
              find_events s1 f (fun _ => SMatch) 1000 false 0 0 = Ok ([e], false).
 Proof. vm_compute. eexists. split; reflexivity. Qed.
+(* non-vacuity of the newest-k theorem: three events of one author, limit 2 cuts the author+kind scan *)
+Example C05_newest_example :
+  let pk := repeat 2 32 in
+  let e1 := mkE (repeat 1 32) pk (repeat 3 64) 1 5 [] [] in
+  let e2 := mkE (repeat 9 32) pk (repeat 3 64) 1 6 [] [] in
+  let e3 := mkE (repeat 8 32) pk (repeat 3 64) 1 7 [] [] in
+  let ops := [CStore e2; CStore e1; CStore e3] in
+  let f := mkF [] [pk] [1] [] 0 100 2 in
+  ops_wfe ops /\\ filter_ok f /\\
+  find_events (c_run ops (db_init [])) f (fun _ => SMatch) 1000 false 0 0 = Ok ([e3; e2], false) /\\
+  get_event_by_id (c_run ops (db_init [])) (e_id e1) = Ok (Some e1) /\\ spec_matches f e1 = true.
+Proof.
+  cbv zeta. split; [|split; [|split; [|split]]].
+  - assert (W : forall i t tg, wf_ev (mkE (repeat i 32) (repeat 2 32) (repeat 3 64) 1 t tg []) <-> (i < 256 /\\ t <= U64MAX)).
+    { intros i t tg. unfold wf_ev, wf_id32. cbn [e_id e_created e_pk e_kind]. split.
+      - intros ((_ & Wb) & Ht & _). split; [inversion Wb; assumption|exact Ht].
+      - intros [Hi Ht]. split; [split; [reflexivity|apply Forall_forall; intros b Hb; apply repeat_spec in Hb; subst b; exact Hi]|]. split; [exact Ht|]. split; [reflexivity|lia]. }
+    repeat constructor; apply W; unfold U64MAX; lia.
+  - unfold filter_ok. cbn [f_until f_since f_authors f_kinds f_tags]. repeat split; try (unfold U64MAX; lia); repeat constructor.
+  - vm_compute. reflexivity.
+  - vm_compute. reflexivity.
+  - vm_compute. reflexivity.
+Qed.
 (* non-vacuity of the exactness theorem: a tag query over a store of two events, limit 10 *)
 Example C05_exact_example :
   let pk := repeat 2 32 in
